@@ -92,13 +92,17 @@ impl Manual {
         Manual::new_cfg(bootstrap, server_mode, settings, None)
     }
     pub fn new_cfg(bootstrap: &[SocketAddrV4], server_mode: bool, settings: dht::ServerSettings, public_ip: Option<Ipv4Addr>) -> Manual {
+        Manual::new_cfg_port(bootstrap, server_mode, settings, public_ip, 0)
+    }
+    /// `port`: 0 = any free port
+    pub fn new_cfg_port(bootstrap: &[SocketAddrV4], server_mode: bool, settings: dht::ServerSettings, public_ip: Option<Ipv4Addr>, port: u16) -> Manual {
         // a manually ticked node never has to wait for a datagram: whatever it is meant to read was sent
         // before the tick (a blocking read with a real-time timeout only slows the run down, and was seen
         // to block for good once)
         crate::simclock::NONBLOCKING_SOCKETS.store(true, std::sync::atomic::Ordering::SeqCst);
         let actor = Actor::new(Config {
             bootstrap: bootstrap.iter().map(|a| a.to_string()).collect(),
-            port: Some(0),
+            port: Some(port),
             server_settings: settings,
             server_mode,
             public_ip,
